@@ -19,6 +19,8 @@ func kindOfScheme(k string) string {
 	switch k {
 	case "bearer", "apikey-hdr", "apikey-query":
 		return k
+	case "bearer-capital":
+		return "bearer"
 	case "apikey-hdr-auth":
 		return "apikey-hdr" // an apiKey scheme that reads the Authorization header (legacy tokens)
 	}
@@ -69,6 +71,7 @@ func C11(run *report.Run) {
 	}
 	// two schemes that read the same header
 	pairs = append(pairs, pair{"bearer", "apikey-hdr-auth"}, pair{"apikey-hdr-auth", "bearer"})
+	pairs = append(pairs, pair{"bearer-capital", "apikey-hdr"}, pair{"apikey-query", "bearer-capital"})
 	globals := []string{"none", "[A]", "[A,B]"}
 	nopsList := []int{2}
 	if run.Tier == "thorough" {
